@@ -230,6 +230,8 @@ func EqualVariants(e eco.Eco, v string) []string {
 	add(strings.TrimSuffix(v, ".0"))
 	add(v + "+build")
 	add(v + "+b.2")
+	add(v + "+incompatible")
+	add(strings.TrimSuffix(v, "+incompatible"))
 	add(v + "-0")
 	add(v + "-r0")
 	add(strings.TrimSuffix(v, "-r0"))
